@@ -64,7 +64,7 @@ EMPTY = z3.StringVal("")
 SPEC_FUNCS = (
     "joined old count n_count first_start last_end chain_ok span_ok joined_values "
     "implies is_none appended length seq_of at unchanged strip lstrip rstrip isspace "
-    "startswith endswith contains substr ite same present is_ctor or_empty field refs_closed writes_only has_op declares_param defines chars_subset differs_only_at is_suffix touched_exactly_one_marked"
+    "startswith endswith contains substr ite same present is_ctor or_empty field refs_closed writes_only has_op declares_param defines chars_subset differs_only_at is_suffix touched_exactly_one_marked isdigit isalpha isidentifier only_chars pure"
 ).split()
 
 
@@ -379,7 +379,7 @@ class Engine(object):
     # ------------------------------------------------------------------ expressions
 
     SAFE_METHODS = frozenset(
-        "startswith endswith isspace strip lstrip rstrip count find rfind lower upper".split()
+        "startswith endswith isspace strip lstrip rstrip count find rfind lower upper isdigit isalpha isidentifier isupper islower".split()
     )
 
     def is_safe(self, e):
@@ -1046,6 +1046,29 @@ class Engine(object):
                 # re-home the old object into the current heap under a fresh reference
                 v = st.alloc(s_old.heap[v.rid])
             return [(st, v)]
+        if (
+            isinstance(f, ast.Attribute) and f.attr == "join" and isinstance(f.value, ast.Constant) and f.value.value == "" and len(e.args) == 1 and not e.keywords
+            and isinstance(e.args[0], ast.Call) and isinstance(e.args[0].func, ast.Name) and e.args[0].func.id == "filter" and len(e.args[0].args) == 2
+            and isinstance(e.args[0].args[0], ast.Attribute) and e.args[0].args[0].attr == "__contains__"
+        ):
+            # idiom: "".join(filter(CS.__contains__, s)) -- s with every character outside the constant set CS removed
+            outs = []
+            for s, cs in self.eval(e.args[0].args[0].value, st):
+                for s2, sv in self.eval(e.args[0].args[1], s):
+                    chars = None
+                    if isinstance(cs, VCharSet) and cs.diff_of is None:
+                        zc = z3.simplify(cs.z)
+                        if z3.is_string_value(zc):
+                            chars = zc.as_string()
+                    if chars and isinstance(sv, VStr):
+                        cls = z3.Union(*[z3.Re(z3.StringVal(c)) for c in sorted(set(chars))]) if len(set(chars)) > 1 else z3.Re(z3.StringVal(chars[0]))
+                        r = fresh("filtered", S)
+                        s2.assume(z3.Length(r) <= z3.Length(sv.z), z3.InRe(r, z3.Star(cls)), z3.Implies(z3.InRe(sv.z, z3.Star(cls)), r == sv.z))
+                        self.assumptions.add("stdlib idiom spec: ''.join(filter(CS.__contains__, s)) keeps exactly the characters of s that are in the constant set CS (r in CS*, len(r) <= len(s), r == s when s in CS*)")
+                        outs.append((s2, VStr(r)))
+                    else:
+                        outs.append((s2, self.abstract_call(e, [sv], s2, "join(filter(...)) over a non-constant character set")))
+            return outs
         # ---- method calls
         if isinstance(f, ast.Attribute):
             # "".join(xs)
@@ -1364,6 +1387,8 @@ class Engine(object):
                 st.assume(z3.Implies(py_isspace(s), s != EMPTY))
                 self.assumptions.add("stdlib spec: ''.isspace() is False")
                 return [(st, VBool(py_isspace(s)))]
+            if m in ("isdigit", "isalpha", "isidentifier", "isupper", "islower") and not args:
+                return [(st, VBool(z3.Function("py_%s" % m, S, B)(s)))]
             if m == "count" and len(args) == 1 and isinstance(args[0], VStr):
                 r = py_count(s, args[0].z)
                 st.assume(r >= 0)
@@ -1706,18 +1731,33 @@ class Engine(object):
             if isinstance(v, VStr):
                 return v
             raise OutOfSubset("or_empty() of %r" % (v,))
+        if name == "pure":
+            # pure('f', x, ...): the SAME uninterpreted function the engine uses for a call f(x, ...) of the module's
+            # (uncontracted) global f -- lets a specification talk about e.g. iskeyword(s) without interpreting it
+            fname = args[0].z.as_string()
+            fv = self.lift_global(getattr(self.module, fname), fname)
+            if not isinstance(fv, VPyFunc):
+                raise OutOfSubset("pure(%r): not an uncontracted function of the module" % fname)
+            kind = self.contract.pure_results.get(fv.qual.split(":")[-1], "opaque")
+            return self.opaque_call(fv.qual, list(args[1:]), st, kind)
         if name == "is_ctor":
             return VBool(isinstance(args[0], VCtor))
         if name == "appended":
             o = lst(args[0])
             return st.alloc(self.list_append(o, args[1], st))
-        if name in ("startswith", "endswith", "contains", "strip", "rstrip", "lstrip", "isspace", "substr"):
+        if name in ("startswith", "endswith", "contains", "strip", "rstrip", "lstrip", "isspace", "substr", "isdigit", "isalpha", "isidentifier", "only_chars"):
             # an operand the engine does not know to be a string: an arbitrary string (only sound under a premise that rules it out)
             args = [a if not isinstance(a, (VOpaque, VNone)) else VStr(fresh("unknown_str", S)) for a in args]
         if name == "strip":
             return VStr(py_strip(args[0].z))
         if name == "rstrip":
             return VStr(py_rstrip(args[0].z))
+        if name in ("isdigit", "isalpha", "isidentifier"):
+            return VBool(z3.Function("py_%s" % name, S, B)(args[0].z))
+        if name == "only_chars":
+            chars = args[1].z.as_string()
+            cls = z3.Union(*[z3.Re(z3.StringVal(c)) for c in sorted(set(chars))]) if len(set(chars)) > 1 else z3.Re(z3.StringVal(chars[0]))
+            return VBool(z3.InRe(args[0].z, z3.Star(cls)))
         if name == "lstrip":
             return VStr(py_lstrip(args[0].z))
         if name == "isspace":
